@@ -146,6 +146,101 @@ func mutants(rnd *hx.Rand, msg proto.Message) []proto.Message {
 					l := x.Mutable(fd).List()
 					l.Append(l.NewElement())
 				})
+				cloneVal := func(v protoreflect.Value) protoreflect.Value {
+					if fd.Kind() == protoreflect.MessageKind {
+						return protoreflect.ValueOfMessage(proto.Clone(v.Message().Interface()).ProtoReflect())
+					}
+					if fd.Kind() == protoreflect.BytesKind {
+						return protoreflect.ValueOfBytes(append([]byte{}, v.Bytes()...))
+					}
+					return v
+				}
+				rebuild := func(x protoreflect.Message, f func(old []protoreflect.Value) []protoreflect.Value) {
+					l := x.Mutable(fd).List()
+					old := []protoreflect.Value{}
+					for k := 0; k < l.Len(); k++ {
+						old = append(old, cloneVal(l.Get(k)))
+					}
+					l.Truncate(0)
+					for _, v := range f(old) {
+						l.Append(v)
+					}
+				}
+				// an element repeated right after itself (first, last), the list reduced to [first, first],
+				// every element equal to the first, the list reversed
+				for _, which := range []int{0, -1} {
+					which := which
+					emit(path, func(x protoreflect.Message) {
+						rebuild(x, func(old []protoreflect.Value) []protoreflect.Value {
+							if len(old) == 0 {
+								return old
+							}
+							k := which
+							if k < 0 {
+								k = len(old) - 1
+							}
+							out := append([]protoreflect.Value{}, old[:k+1]...)
+							out = append(out, cloneVal(old[k]))
+							return append(out, old[k+1:]...)
+						})
+					})
+				}
+				emit(path, func(x protoreflect.Message) {
+					rebuild(x, func(old []protoreflect.Value) []protoreflect.Value {
+						if len(old) == 0 {
+							return old
+						}
+						return []protoreflect.Value{old[0], cloneVal(old[0])}
+					})
+				})
+				emit(path, func(x protoreflect.Message) {
+					rebuild(x, func(old []protoreflect.Value) []protoreflect.Value {
+						out := []protoreflect.Value{}
+						for range old {
+							out = append(out, cloneVal(old[0]))
+						}
+						return out
+					})
+				})
+				emit(path, func(x protoreflect.Message) {
+					rebuild(x, func(old []protoreflect.Value) []protoreflect.Value {
+						out := []protoreflect.Value{}
+						for k := len(old) - 1; k >= 0; k-- {
+							out = append(out, old[k])
+						}
+						return out
+					})
+				})
+				if fd.Kind() == protoreflect.StringKind {
+					// one element (first, last) replaced by a short / odd string, the others as they are
+					for _, str := range []string{"", "0", "0x", "0x0", "zz", strings.Repeat("f", 63), strings.Repeat("a", 5000)} {
+						for _, which := range []int{0, -1} {
+							str, which := str, which
+							emit(path, func(x protoreflect.Message) {
+								l := x.Mutable(fd).List()
+								if l.Len() == 0 {
+									l.Append(protoreflect.ValueOfString(str))
+									return
+								}
+								k := which
+								if k < 0 {
+									k = l.Len() - 1
+								}
+								l.Set(k, protoreflect.ValueOfString(str))
+							})
+						}
+					}
+					// every element replaced at once (lists that have to keep their lengths in step)
+					for _, str := range []string{"", "0", "0x"} {
+						str := str
+						emit(path, func(x protoreflect.Message) {
+							l := x.Mutable(fd).List()
+							for k := 0; k < l.Len(); k++ {
+								l.Set(k, protoreflect.ValueOfString(str))
+							}
+						})
+					}
+				}
 				if fd.Kind() == protoreflect.Uint64Kind || fd.Kind() == protoreflect.Int64Kind {
 					for _, b := range boundaryU64 {
 						b := b
